@@ -74,6 +74,9 @@ func buildFromDefinition(def *configDefinition, lc *loaderContext) (cfg *Config,
 	cfg = NewConfig()
 
 	for k, v := range def.Contexts {
+		if v == nil {
+			return nil, fmt.Errorf("context %s has no definition", k)
+		}
 		cfg.Contexts[k], err = buildContext(v)
 		if err != nil {
 			return nil, err
@@ -81,16 +84,22 @@ func buildFromDefinition(def *configDefinition, lc *loaderContext) (cfg *Config,
 	}
 
 	for k, v := range def.Tasks {
-		cfg.Tasks[k], err = buildTask(v, lc)
-		if cfg.Tasks[k].Name == "" {
-			cfg.Tasks[k].Name = k
+		if v == nil {
+			return nil, fmt.Errorf("task %s has no definition", k)
 		}
+		cfg.Tasks[k], err = buildTask(v, lc)
 		if err != nil {
 			return nil, err
+		}
+		if cfg.Tasks[k].Name == "" {
+			cfg.Tasks[k].Name = k
 		}
 	}
 
 	for k, v := range def.Watchers {
+		if v == nil {
+			return nil, fmt.Errorf("watcher %s has no definition", k)
+		}
 		t := cfg.Tasks[v.Task]
 		if t == nil {
 			return nil, fmt.Errorf("no such task %s", v.Task)
